@@ -14,7 +14,7 @@ func init() {
 		id: "C07",
 		li: levelInfo{
 			Level:       "other",
-			Explanation: "Static rules on the self-healing paths of the Redis upstream. R1: a key inserted into the in-flight-connect map by the goroutine that wins LoadOrStore is deleted on every path after the attempt completed (a finished entry must not be observable later - otherwise every later request for that address gets the cached dead connection or the cached error). R2: the goroutine that runs a backend connection removes it from the table after the run function returns; the reader's return is followed by a Close of the connection before the writer is joined (a writer blocked in a socket write is woken). R3: every path on which a slots refresh failed reaches the refresh trigger. R4: redirect / cluster-down handlers and each host-change callback with a non-empty argument reach the trigger; OnHostRemove stops the connection of every removed address; OnHostReplace resets all. R5: every blocking operation reachable from the refresh loop is guarded by upstream.quit, a join, or bounded by a timer. R6: the nil test of the slot entry dominates every dereference of it. R7: a slots refresh rewrites every slot a master line lists (no stale owner/replica list survives). Convergence within a bounded number of rounds is not decided. R3 also requires every send on the refresh channel to be non-blocking (its only receiver is the refresh loop itself). R7 also runs the CLUSTER NODES parser obligations (a master without slots is accepted). R8: a successfully parsed view is always applied. R9 (shared with C09.R7): no lock is held at a join that the joined goroutines need. R2 also requires the goroutine to remove the key the connection was added under (same value of the creating function). R1 also requires the values the winner returns to be stored into the in-flight entry first. R5 treats a timer channel drained after Stop() returned false as unbounded. R4 also runs the redirect-callback obligations of C04.R3. R7 forbids substring tests on columns. R3 also: every receive on the refresh channel is followed by a refresh round before the goroutine waits again or returns. R8 also: every path from a successful parse goes through the table update. R7 also: the parser rejects a whole view only for a short line, an address without host:port shape, or an error of a callee.",
+			Explanation: "Static rules on the self-healing paths of the Redis upstream. R1: a key inserted into the in-flight-connect map by the goroutine that wins LoadOrStore is deleted on every path after the attempt completed (a finished entry must not be observable later - otherwise every later request for that address gets the cached dead connection or the cached error). R2: the goroutine that runs a backend connection removes it from the table after the run function returns; the reader's return is followed by a Close of the connection before the writer is joined (a writer blocked in a socket write is woken). R3: every path on which a slots refresh failed reaches the refresh trigger. R4: redirect / cluster-down handlers and each host-change callback with a non-empty argument reach the trigger; OnHostRemove stops the connection of every removed address; OnHostReplace resets all. R5: every blocking operation reachable from the refresh loop is guarded by upstream.quit, a join, or bounded by a timer. R6: the nil test of the slot entry dominates every dereference of it. R7: a slots refresh rewrites every slot a master line lists (no stale owner/replica list survives). Convergence within a bounded number of rounds is not decided. R3 also requires every send on the refresh channel to be non-blocking (its only receiver is the refresh loop itself). R7 also runs the CLUSTER NODES parser obligations (a master without slots is accepted). R8: a successfully parsed view is always applied. R9 (shared with C09.R7): no lock is held at a join that the joined goroutines need. R2 also requires the goroutine to remove the key the connection was added under (same value of the creating function). R1 also requires the values the winner returns to be stored into the in-flight entry first. R5 treats a timer channel drained after Stop() returned false as unbounded. R4 also runs the redirect-callback obligations of C04.R3. R7 forbids substring tests on columns. R3 also: every receive on the refresh channel is followed by a refresh round before the goroutine waits again or returns. R8 also: every path from a successful parse goes through the table update. R7 also: the parser rejects a whole view only for a short line, an address without host:port shape, or an error of a callee. R10: the node asked for the cluster layout is drawn at random from the host set in every round.",
 			TrustedBase: []string{"go/ssa", "VTA call graph", "samlint echan.go"},
 		},
 		run: checkC07,
@@ -520,6 +520,8 @@ func checkC07(c *Ctx) {
 	checkClusterNodesParser(c, "R7")
 	c.Rule("R8", "a successfully parsed cluster view is always applied (no acceptance test between the parser and the table update)")
 	checkParsedViewApplied(c, "R8")
+	c.Rule("R10", "every refresh round asks a node chosen at random among the configured hosts: a seed that cannot report the layout is not asked for ever")
+	checkRefreshAsksRandomSeed(c, "R10")
 	c.Rule("R9", "no lock is held at a join that the joined goroutines need (shared with C09.R7): replacing or removing hosts cannot wedge the upstream")
 	c.withAlias(map[string]string{"R7": "R9"}, func() { checkWaitForCycles(c) })
 }
@@ -914,4 +916,88 @@ func checkSingleflightEntry(c *Ctx, rule string, calls *types.Var) {
 		c.Unresolved(rule, "no LoadOrStore on upstream.createClientCalls")
 	}
 
+}
+
+// checkRefreshAsksRandomSeed (C07.R10): the retry after a failed refresh converges because each round asks a host
+// drawn at random from the host set. A "prefer a host we are already connected to" source pins the refresh to one
+// seed: while that seed answers with an error or a stale view, every round asks it again and the table never
+// converges although another seed reports the right layout.
+func checkRefreshAsksRandomSeed(c *Ctx, rule string) {
+	p := c.P
+	doRefresh := p.Func(redisPkg, "(*upstream).doSlotsRefresh")
+	mrth := p.Func(redisPkg, "(*upstream).MakeRequestToHost")
+	if doRefresh == nil || mrth == nil {
+		c.Unresolved(rule, "doSlotsRefresh / MakeRequestToHost")
+		return
+	}
+	isRandom := func(v ssa.Value) bool {
+		call, ok := v.(*ssa.Call)
+		return ok && isCallTo(call, "(*"+modPath+"/host.Set).Random")
+	}
+	var fromRandom func(v ssa.Value, depth int) bool
+	fromRandom = func(v ssa.Value, depth int) bool {
+		v = stripConv(resolveCell(v))
+		if derives(v, isRandom) {
+			return true
+		}
+		if depth > 2 {
+			return false
+		}
+		// the result of a helper all of whose successful returns come from the random draw
+		var call *ssa.Call
+		switch x := v.(type) {
+		case *ssa.Extract:
+			call, _ = x.Tuple.(*ssa.Call)
+		case *ssa.Call:
+			call = x
+		}
+		if call == nil {
+			return false
+		}
+		g := calleeFn(call.Common())
+		if g == nil || !isModFn(g) || g.Blocks == nil {
+			return false
+		}
+		ok, n := true, 0
+		eachInstr(g, func(_ *ssa.BasicBlock, _ int, in ssa.Instruction) {
+			r, isRet := in.(*ssa.Return)
+			if !isRet {
+				return
+			}
+			vals := returnedValues(r)
+			if len(vals) == 0 {
+				return
+			}
+			if len(vals) == 2 && !isNilConst(vals[1]) {
+				if _, isC := vals[0].(*ssa.Const); isC {
+					return // the error return
+				}
+			}
+			n++
+			if !fromRandom(vals[0], depth+1) {
+				ok = false
+			}
+		})
+		return ok && n > 0
+	}
+	n := 0
+	for _, fn := range append([]*ssa.Function{doRefresh}, staticCalleesDeep(doRefresh, 1)...) {
+		if fn.Blocks == nil || !isModFn(fn) || fn == mrth {
+			continue
+		}
+		eachInstr(fn, func(_ *ssa.BasicBlock, _ int, in ssa.Instruction) {
+			call, ok := in.(*ssa.Call)
+			if !ok || !isCallToFn(call, mrth) || len(call.Call.Args) < 2 {
+				return
+			}
+			if fn != doRefresh {
+				return
+			}
+			n++
+			c.Check(fromRandom(call.Call.Args[1], 0), rule, fmt.Sprintf("%s asks a randomly drawn host#%d", fnKey(fn), n), call.Pos(), "the address of the CLUSTER NODES request comes from host.Set.Random", "the node that is asked for the cluster layout is not (only) drawn at random from the host set: a source that prefers one host - e.g. one the proxy is already connected to - asks the same seed in every round, and while that seed answers with an error or a stale view the routing table never converges although another seed would report the right layout")
+		})
+	}
+	if n == 0 {
+		c.Unresolved(rule, "doSlotsRefresh does not send a request")
+	}
 }
